@@ -203,6 +203,32 @@ func family(f Field, dc string, thorough, httpReq bool) []Tok {
 		}
 		return append(base, tL(), tL(tN("1"), tN("2")), tL(tN("1"), tS("x")), tL(tN("1.5")), tL(tZ()), tL(tN("1"), tZ()),
 			tN("3"), tS("x"), tS("[1,2]"), tO1("k", tN("1")))
+	case f.Kind == KSliceB:
+		switch dc {
+		case "form":
+			return append(base, tL(tS("true"), tS("false")), tL(tS("false")), tL(tS("x")))
+		case "path":
+			return append(base, tS("true"), tS("[true,false]"), tS("x"))
+		case "header":
+			return append(base, tS("true"), tS("[true,false]"), tS("x"), tL(tS("true"), tS("false")))
+		}
+		return append(base, tL(), tL(tB(true), tB(false)), tL(tB(false)), tL(tB(true), tS("x")), tL(tZ()), tL(tB(true), tZ()),
+			tN("3"), tS("x"), tS("[true,false]"), tO1("k", tB(true)))
+	case f.Kind == KSliceS:
+		switch dc {
+		case "form":
+			out := append(base, tL(tS("a"), tS("b")), tL(tS("a")), tL(tS("c"), tS("a"), tS("b")))
+			if !httpReq {
+				out = append(out, tL(tS("")))
+			}
+			return out
+		case "path":
+			return append(base, tS("a"), tS(`["a","b"]`))
+		case "header":
+			return append(base, tS("a"), tS(`["a","b"]`), tL(tS("a"), tS("b")))
+		}
+		return append(base, tL(), tL(tS("a"), tS("b")), tL(tS("c")), tL(tS("a"), tN("1")), tL(tS("a"), tB(true)), tL(tZ()), tL(tS("a"), tZ()),
+			tL(tL(tS("a"))), tN("3"), tS("x"), tS(`["a","b"]`), tO1("k", tS("a")))
 	case f.Kind == KMap:
 		if ss {
 			return append(base, tS(`{"k":1}`), tS("x"))
@@ -245,6 +271,19 @@ func validTok(f Field, dc string) Tok {
 			return tS("[1,2]")
 		}
 		return tL(tN("1"), tN("2"))
+	case f.Kind == KSliceS:
+		if dc == "path" {
+			return tS(`["a","b"]`)
+		}
+		return tL(tS("a"), tS("b"))
+	case f.Kind == KSliceB:
+		switch dc {
+		case "form", "header":
+			return tL(tS("true"), tS("false"))
+		case "path":
+			return tS("[true,false]")
+		}
+		return tL(tB(true), tB(false))
 	default:
 		if strSourced(dc) {
 			return tS(`{"k":1}`)
@@ -266,6 +305,12 @@ func invalidTok(f Field, dc string) Tok {
 	g := f
 	if f.Kind == KNested {
 		g = f.inner()
+	}
+	if f.Kind == KSliceS {
+		if strSourced(dc) {
+			return validTok(f, dc) // every string is a valid element: no invalid value (the duplicate is dropped)
+		}
+		return tO0()
 	}
 	var t Tok
 	switch {
@@ -346,6 +391,28 @@ func native(t Tok, k Kind) any {
 		f, _ := strconv.ParseFloat(t.V, 64)
 		return f
 	case "list":
+		if k == KSliceB {
+			allBool := true
+			for _, e := range t.E {
+				allBool = allBool && e.T == "bool"
+			}
+			if allBool {
+				out := make([]bool, len(t.E))
+				for i, e := range t.E {
+					out[i] = e.V == "true"
+				}
+				return out
+			}
+		}
+		if k == KSliceS {
+			allStr := true
+			for _, e := range t.E {
+				allStr = allStr && e.T == "str"
+			}
+			if allStr {
+				return strList(t)
+			}
+		}
 		allInt := len(t.E) > 0 || k == KSlice
 		for _, e := range t.E {
 			if e.T != "num" || strings.ContainsAny(e.V, ".eE") {
